@@ -540,4 +540,136 @@ theorem toLut_spec (s : Sop) (m : Nat) (hm : m < 2 ^ s.n) : s.toLut.eval m = s.v
 example : Sop.or ⟨2, [⟨1, 0⟩, ⟨3, 0⟩]⟩ ⟨2, [⟨1, 0⟩, ⟨0, 2⟩]⟩ =
     some ⟨2, Sop.simplifyCubes [⟨1, 0⟩, ⟨3, 0⟩, ⟨1, 0⟩, ⟨0, 2⟩]⟩ := by simp [Sop.or]
 
+
+/-! ## expressions nesting any number of operations
+
+The property quantifies over expressions that nest several `&`, `|`, `!`; the three operator
+theorems compose along the expression tree, for every depth. -/
+
+/-- the structural guarantee of the property: no contradictory cube, no duplicate, no cube that
+implies another -/
+def Irredundant (r : Sop) : Prop :=
+  (∀ c ∈ r.cubes, c.isZero = false) ∧ r.cubes.Nodup ∧
+    (∀ c ∈ r.cubes, ∀ d ∈ r.cubes, c ≠ d → c.implies d = false)
+
+theorem one_irredundant (n : Nat) : Irredundant (Sop.one n) := by
+  refine ⟨?_, ?_, ?_⟩
+  · intro c hc
+    have : c = Cube.one := by simpa [Sop.one] using hc
+    subst this; decide
+  · simp [Sop.one]
+  · intro c hc d hd hne
+    have h1 : c = Cube.one := by simpa [Sop.one] using hc
+    have h2 : d = Cube.one := by simpa [Sop.one] using hd
+    exact absurd (h1.trans h2.symm) hne
+
+/-- the complement is an irredundant cover too -/
+theorem not_irredundant (s r : Sop) (h : Sop.not s = some r) : Irredundant r := by
+  unfold Sop.not at h
+  have key : ∀ (cs : List Cube) (acc : Option Sop) (r : Sop),
+      cs.foldl (fun ret c => match ret with
+        | none => none
+        | some r => Sop.and r ⟨s.n, c.posVars.map Cube.nthVarInv ++ c.negVars.map Cube.nthVar⟩) acc = some r →
+      (cs = [] ∧ acc = some r) ∨ Irredundant r := by
+    intro cs
+    induction cs with
+    | nil => intro acc r h; exact Or.inl ⟨rfl, h⟩
+    | cons c cs ih =>
+      intro acc r h
+      simp only [List.foldl_cons] at h
+      rcases ih _ r h with ⟨_, hacc⟩ | hir
+      · right
+        match acc, hacc with
+        | none, hacc => simp at hacc
+        | some a, hacc => exact results_irredundant a _ r (Or.inl hacc)
+      · exact Or.inr hir
+  rcases key s.cubes _ r h with ⟨_, hr⟩ | hir
+  · cases hr; exact one_irredundant s.n
+  · exact hir
+
+inductive SExpr where
+  | leaf (s : Sop)
+  | and (a b : SExpr)
+  | or (a b : SExpr)
+  | not (a : SExpr)
+
+/-- what the crate computes (`none` = the size assertion of an operator fails) -/
+def SExpr.eval : SExpr → Option Sop
+  | .leaf s => some s
+  | .and a b => match a.eval, b.eval with
+    | some x, some y => Sop.and x y
+    | _, _ => none
+  | .or a b => match a.eval, b.eval with
+    | some x, some y => Sop.or x y
+    | _, _ => none
+  | .not a => match a.eval with
+    | some x => Sop.not x
+    | none => none
+
+/-- what the expression means -/
+def SExpr.den : SExpr → Nat → Bool
+  | .leaf s, m => s.value m
+  | .and a b, m => a.den m && b.den m
+  | .or a b, m => a.den m || b.den m
+  | .not a, m => !a.den m
+
+def SExpr.isLeaf : SExpr → Bool
+  | .leaf _ => true
+  | _ => false
+
+/-- the value of the result of an expression of any depth is the Boolean expression of the values
+of its leaves, whatever cubes the leaves were built from -/
+theorem expr_value (e : SExpr) (r : Sop) (h : e.eval = some r) : ∀ m, r.value m = e.den m := by
+  induction e generalizing r with
+  | leaf s => intro m; simp only [SExpr.eval, Option.some.injEq] at h; subst h; rfl
+  | and a b iha ihb =>
+    simp only [SExpr.eval] at h
+    split at h
+    · rename_i x y hx hy
+      intro m
+      rw [(and_spec x y r h).1 m, iha x hx m, ihb y hy m]; rfl
+    · cases h
+  | or a b iha ihb =>
+    simp only [SExpr.eval] at h
+    split at h
+    · rename_i x y hx hy
+      intro m
+      rw [(or_spec x y r h).1 m, iha x hx m, ihb y hy m]; rfl
+    · cases h
+  | not a iha =>
+    simp only [SExpr.eval] at h
+    split at h
+    · rename_i x hx
+      intro m
+      rw [(not_spec x r h).1 m, iha x hx m]; rfl
+    · cases h
+
+/-- every result of an operator - at the root of an expression of any depth - is an irredundant
+cover -/
+theorem expr_irredundant (e : SExpr) (r : Sop) (h : e.eval = some r) (hl : e.isLeaf = false) :
+    Irredundant r := by
+  cases e with
+  | leaf s => simp [SExpr.isLeaf] at hl
+  | and a b =>
+    simp only [SExpr.eval] at h
+    split at h
+    · rename_i x y _ _; exact results_irredundant x y r (Or.inl h)
+    · cases h
+  | or a b =>
+    simp only [SExpr.eval] at h
+    split at h
+    · rename_i x y _ _; exact results_irredundant x y r (Or.inr h)
+    · cases h
+  | not a =>
+    simp only [SExpr.eval] at h
+    split at h
+    · rename_i x _; exact not_irredundant x r h
+    · cases h
+
+/-- non-vacuity: `(x0 | x0 x1) & (x1 | !x0 | x1 !x0)` over redundant operands evaluates -/
+example : ((SExpr.and (.or (.leaf ⟨2, [⟨1, 0⟩]⟩) (.leaf ⟨2, [⟨3, 0⟩, ⟨3, 0⟩]⟩))
+    (.leaf ⟨2, [⟨2, 0⟩, ⟨0, 1⟩, ⟨2, 1⟩]⟩)).eval).isSome = true := by
+  simp [SExpr.eval, Sop.or, Sop.and]
+
+
 end VoluteModel.Props.C14
